@@ -32,7 +32,7 @@ USTACK, THINFO = 8, 1
 def generate(rng, index, tier):
     if index % 1009 == 23:
         # one very deep sample: as many data records as a count the source names (or 30000), frames = 4 per record
-        nrec = worlds.dict_size(rng, 270000) or 30000
+        nrec = worlds.dict_size(rng, 270000, k=index // 1009) or 30000
         rows = [[0x1000 + 4 * i + j for j in range(4)] for i in range(nrec)]
         ops = [worlds.op_imap(rng, worlds.draw_uuid(rng), 0x1000), worlds.op_sample(rng, flags=8, thd=None, uhdr=(1, 4 * nrec - rng.randrange(0, 3)), udata=rows)]
         return {'threads': [{'tid': 500, 'ops': ops}], 'schedule': [], 'via_file': False, 't0': 0x100001, 'faults': [], 'requests': 1, 'huge': nrec}
